@@ -86,6 +86,7 @@ func (l mapLoop) earlyExits() []*ssa.BasicBlock {
 
 func runC09(c *Ctx) {
 	runC09Satisfied(c)
+	borrow(c, "O10", "C07", "O7", "createQueueResourceAttrs", "each resource is divided by the queues' quota, limit and over-quota weight FOR THAT RESOURCE: a weight taken from another resource hands the surplus of one resource out in the proportions configured for another")
 	p, fx := c.P, c.Fx
 	e := newAbsExec(p)
 
